@@ -321,11 +321,76 @@ def generate():
         src = ast.unparse(call)
         for needle in ("replace(hour=time_init.hour, minute=time_init.minute, second=time_init.second, "
                        "microsecond=time_init.microsecond)",
-                       "tzinfo = record_time.tzinfo if time_init.tzinfo is None else time_init.tzinfo",
                        "limit = start_time.astimezone(record_time.tzinfo).replace(tzinfo=None)",
                        "creation_time = get_ctime(filepath)"):
             if needle not in src:
                 raise Unsupported("RotationTime.__call__ no longer contains: " + needle)
+
+        # ---- RotationTime.__call__: when is `time_init` treated as naive?  (zone choice, and dropping tzinfo)
+        def naive_test(node, local):
+            """a test over `time_init`: atoms `time_init.tzinfo is None` / `time_init.utcoffset() is None`,
+            a local name bound to one, `not`/and/or of these"""
+            if isinstance(node, ast.Name) and node.id in local:
+                return local[node.id]
+            if isinstance(node, ast.Compare) and len(node.ops) == 1 and isinstance(node.ops[0], (ast.Is, ast.IsNot)) \
+                    and ast.unparse(node.comparators[0]) == "None":
+                src = ast.unparse(node.left)
+                atom = {"time_init.tzinfo": "tzinfoIsNone", "time_init.utcoffset()": "utcoffsetIsNone"}.get(src)
+                if atom is None:
+                    raise Unsupported("naive test on " + src)
+                return atom if isinstance(node.ops[0], ast.Is) else "(!%s)" % atom
+            if isinstance(node, ast.UnaryOp) and isinstance(node.op, ast.Not):
+                return "(!%s)" % naive_test(node.operand, local)
+            if isinstance(node, ast.BoolOp):
+                sym = " && " if isinstance(node.op, ast.And) else " || "
+                return "(" + sym.join(naive_test(v, local) for v in node.values) + ")"
+            raise Unsupported("naive test " + ast.unparse(node)[:60])
+
+        local, zone_test, strip_test = {}, None, None
+        for node in ast.walk(call):
+            if isinstance(node, ast.Assign) and len(node.targets) == 1 and isinstance(node.targets[0], ast.Name):
+                name = node.targets[0].id
+                if name == "tzinfo" and isinstance(node.value, ast.IfExp) \
+                        and ast.unparse(node.value.body) == "record_time.tzinfo" \
+                        and ast.unparse(node.value.orelse) == "time_init.tzinfo":
+                    zone_test = node.value.test
+                elif "time_init" in ast.unparse(node.value) and name not in ("limit", "tzinfo", "time_init"):
+                    try:
+                        local[name] = naive_test(node.value, local)
+                    except Unsupported:
+                        pass
+            if isinstance(node, ast.If) and [ast.unparse(x) for x in node.body] == ["limit = limit.replace(tzinfo=None)"]:
+                strip_test = node.test
+        if zone_test is None or strip_test is None:
+            raise Unsupported("RotationTime.__call__: zone selection / tzinfo stripping of the first limit not found")
+        body += "/-- is `time_init` read in the records' zone?  (`tzinfo = record_time.tzinfo if … else time_init.tzinfo`) -/\n"
+        body += "def timeInitUsesRecordZone (tzinfoIsNone utcoffsetIsNone : Bool) : Bool := %s\n" % naive_test(zone_test, local)
+        body += "/-- is the first limit made naive?  (`if …: limit = limit.replace(tzinfo=None)`) -/\n"
+        body += "def timeInitLimitNaive (tzinfoIsNone utcoffsetIsNone : Bool) : Bool := %s\n\n" % naive_test(strip_test, local)
+
+        # ---- FileSink._terminate_file / _create_file: the file a rotation creates
+        tf = find_func(fs, "_terminate_file", "FileSink")
+        tagged = None
+        for node in tf.body:
+            if isinstance(node, ast.If) and ast.unparse(node.test) == "is_rotating":
+                srcs = [ast.unparse(x) for x in node.body]
+                if srcs and srcs[0] == "self._create_file(new_path)":
+                    tagged = "set_ctime(new_path, datetime.datetime.now().timestamp())" in srcs[1:]
+        if tagged is None:
+            raise Unsupported("_terminate_file: creation of the new file not found")
+        body += "/-- after a rotation, is the new file unconditionally tagged `set_ctime(new_path, now)`? -/\n"
+        body += "def newFileTaggedWithNow : Bool := %s\n" % ("true" if tagged else "false")
+        same = [n for n in ast.walk(tf) if isinstance(n, ast.If) and ast.unparse(n.test) in ("new_path == old_path", "old_path == new_path")]
+        if len(same) != 1 or "os.rename(old_path, renamed_path)" not in ast.unparse(same[0]):
+            raise Unsupported("_terminate_file: the rename of a file that keeps its name changed")
+        cf = find_func(fs, "_create_file", "FileSink")
+        assigns = [ast.unparse(n.value) for n in ast.walk(cf) if isinstance(n, ast.Assign)
+                   and ast.unparse(n.targets[0]) == "self._file_path"]
+        tfp = [ast.unparse(n.value) for n in ast.walk(tf) if isinstance(n, ast.Assign) and ast.unparse(n.targets[0]) == "old_path"]
+        body += "/-- `_create_file` remembers the path exactly as `_create_path()` produced it (what `_terminate_file`\n"
+        body += "compares with a fresh `_create_path()` to decide that the full file must be renamed away) -/\n"
+        body += "def filePathIsCreatedPath : Bool := %s\n\n" % (
+            "true" if assigns == ["path"] and tfp and tfp[0] == "self._file_path" else "false")
 
         # ---- _make_rotation_function
         mk = find_func(fs, "_make_rotation_function", "FileSink")
